@@ -73,7 +73,10 @@ func runC06(rc *sim.RunCtx) {
 		var tx *TxSpec
 		switch kind {
 		case "invalid":
-			tx = &TxSpec{ID: fmt.Sprintf("x%d", txn), Intents: []IntentSpec{{Name: "bad", Prio: 99, Leaves: []*MLeaf{invalidLeaf(w.SI)}, Edit: "create", Form: "typed"}}}
+			// priority 1: above every generated intent, so that the invalid value is never shadowed by a valid one of another intent
+			// (a shadowed invalid value is rightly accepted - the verdict is about the resulting configuration - and would turn
+			// later valid requests into invalid ones as soon as the shadowing intent drops the leaf)
+			tx = &TxSpec{ID: fmt.Sprintf("x%d", txn), Intents: []IntentSpec{{Name: "bad", Prio: 1, Leaves: []*MLeaf{invalidLeaf(w.SI)}, Edit: "create", Form: "typed"}}}
 			if t.Bool(1, 2) {
 				// the violated constraint sits on config the transaction does not own: /cons/hi (unhandled running
 				// config, must ". >= ../lo") becomes invalid when the intent sets /cons/lo above it
